@@ -77,6 +77,11 @@ CLAIMED['C04'] = ('model_checking', 'symbolic execution of rustc MIR (mirsym) + 
     'Trusted: mirsym + environment models; the quick-xml event-source model (mirsym/natives_xml.py), cross-checked on every run by executing sampled documents natively with the real quick-xml. Outside: byte-level tokenisation, XInclude (file I/O), CDATA text, larger documents. Two defects repaired (namespace-prefixed elements with child text panicked; entity references in element text kept verbatim).',
     'DESIGN.md §4 C04')
 
+CLAIMED['C14'] = ('model_checking', 'symbolic execution of rustc MIR (mirsym) + z3: the real mainEventLoop/enterStates/exitStates/invoke/cancelInvoke on statecharts with <invoke> elements vs a reference loop; a real child session started through the executor',
+    'Bounded symbolic model checking of the part of the life cycle that one session thread decides: invokes start exactly for the states entered and still active at the end of a macrostep (never for a state entered and left inside it), once, in entry/document order; leaving a state cancels exactly its running invokes and no others; an event stamped with the invoke id of a running child runs exactly that invoke\'s <finalize> before transitions are selected; events from sessions that are not (any more) invoked are not processed; every external event is forwarded to every running child with autoforward; the child-session table holds exactly the running children; a real child started from inline XML takes passed values only for <data> it declares, and its parent receives the child\'s events first and done.invoke.<id> once, last, all stamped with the invoke id.  The orders of arrival [host event, child event / stale event / done.invoke] are enumerated instead of thread schedules.',
+    'Trusted: mirsym + environment models (thread spawn = registered closure run at join, mpsc FIFO), the reference loop in harness/src/h_inv.rs. Outside: real thread races between parent and child (stated in the evidence), src= loading, idlocation. Two defects repaired (invoke document ids all 0 when read from XML; autoforward only for events coming from the same child).',
+    'DESIGN.md §4 C14')
+
 NA_REASON = {
     'C13': 'The claim quantifies over interleavings of N producer threads with the session thread. Symbolic execution of the real code (mirsym; Kani has no concurrency support) runs one thread at a time; std::sync::mpsc is an environment model (a FIFO list), so "exactly once, per-sender order" would hold by construction of the model, not of the code: the check would be vacuous. The sequential residue (each dequeued event is processed to completion before the next dequeue, in queue order) is decided under C03. The property needs a schedule-exploring technique (loom/shuttle-style), which is outside this task\'s technique family.',
     'C14': 'Sequential parts of the invoke life cycle are decided elsewhere (done.invoke on exitInterpreter: C07; routing of #_parent / #_<invokeid> sends and error events: C12/C15; cancel event ends the main loop: C03/C07). The remainder of the claim is about the race between child events, child completion and parent-side cancellation across two OS threads and an executor-owned session table; the engine executes threads one after another in a fixed composition, so the "for every outcome of that race" quantifier cannot be encoded, and the start-up path (executor thread spawn + XML/file loading of the child document) exceeds what the environment models cover soundly.',
